@@ -131,6 +131,7 @@ CallsOf(x, op) ==
     [] op = "write" -> {Wr(h, i, 1) : <<h, i>> \in {y \in Bound(x) \X (0 .. 24) : y[2] \in Ends(Len(x.sto[x.slot[y[1]]].vals))}}
     [] op = "set_vertex" -> {SetV(m, v, 5) : <<m, v>> \in {y \in Alive(x) \X (0 .. 12) : y[2] \in Ends(x.mesh[y[1]].kern.nv)}}
     [] op = "persist_pos" -> {Call(op, m, 0, f, <<>>, "") : <<m, f>> \in Alive(x) \X BOOLEAN}
+    [] op = "pos_handle" -> {Call(op, m, h, FALSE, <<>>, "") : <<m, h>> \in Alive(x) \X Targets1(x)}
     [] op = "mesh_new" -> IF DeadMeshes(x) = {} \/ ~Room(x, 1) THEN {}
                           ELSE {MNew(Min(DeadMeshes(x)), ty) : ty \in MTypes}
     [] op = "mesh_copy" -> IF DeadMeshes(x) = {} THEN {}
